@@ -31,6 +31,7 @@ structure DState where
   hist : List Snap := [⟨Root.empty, [], "init"⟩]   -- every installed root with its abstract index, most recent first
   sidsSeen : List Nat := []
   mergeRoots : List (Nat × Root) := []            -- id of a merged segment ↦ the root its introduction installed
+  mergeKinds : List (Nat × Bool) := []            -- id of a merged segment ↦ it was a file merge
   everLive : List Doc := []
   prevImpl : List Doc := []                       -- what the implementation showed on the previous line
 
@@ -206,9 +207,19 @@ def c06step (st : DState) (op : String) (impl : String) : DState × String :=
         else v
       let hitsSegWithDels := st.root.segs.any fun s =>
         !s.deleted.isEmpty && (docsMatching s.docs b.ids).any (fun x => !s.deleted.contains x)
+      -- merged segments that were introduced AFTER this batch was prepared (not in its obsoletes map) and BEFORE it is
+      -- introduced (in the root now), holding a live document the batch names: only the `!ok` fallback deletes it
+      let viaMerge := st.root.segs.filter fun s =>
+        (obs.lookup s.sid).isNone && s.persisted && st.mergeKinds.any (fun p => p.1 == s.sid) &&
+          (docsMatching s.docs b.ids).any (fun x => !s.deleted.contains x)
+      let viaFile := viaMerge.any fun s => st.mergeKinds.any (fun p => p.1 == s.sid && p.2)
+      let viaMem := viaMerge.any fun s => st.mergeKinds.any (fun p => p.1 == s.sid && !p.2)
       (install st r' specNext "intro" ia, showRoot r' ++ sep ++ verdict ++ brs [
         (ndrop > 0, "segment-dropped"), (hasNew, "new-segment"), (!hasNew, "no-new-segment"),
         (hitsSegWithDels, "delete on a segment that already carries deletions"),
+        (!viaMerge.isEmpty, "window:prepared-before-merge-introduced-after"),
+        (viaFile, "window:prepared-before-file-merge-introduced-after"),
+        (viaMem, "window:prepared-before-mem-merge-introduced-after"),
         (seenE != st.root.epoch, "stale-root-seen")])
     | _, _, _, _ => (st, "bad-op" ++ sep ++ "bad:unparsable-intro")
   | "persist" :: e :: g :: ps =>
@@ -262,7 +273,7 @@ def c06step (st : DState) (op : String) (impl : String) : DState × String :=
             else if !(st.root.epoch < e) then "bad:assumption-epoch-not-increasing"
             else v
           let st' := install st r' st.spec "merge" ia
-          ({ st' with mergeRoots := (id, r') :: st'.mergeRoots }, showRoot r' ++ sep ++ verdict ++ brs [
+          ({ st' with mergeRoots := (id, r') :: st'.mergeRoots, mergeKinds := (id, fm) :: st'.mergeKinds }, showRoot r' ++ sep ++ verdict ++ brs [
             (!left.isEmpty, "merge: segment dropped meanwhile"), (since, "merge: deletes since start mapped"),
             (mergeSkipped st.root m, "merge skipped: all deleted"),
             (picked.any (fun s => !s.deleted.isEmpty), "merge: inputs already carried deletions"),
